@@ -16,7 +16,8 @@ RULE = ("states = (multiset of <=N respondents, config) on CAT/MR pairings in 2-
         "missing category of every dimension at every payload position; non-trivial = some cell "
         "has a finite index AND some respondent has a missing column answer; distinct = distinct "
         "index tensors")
-ASSUMPTIONS = ["weights {1,2}", "unconditional share = members of the row element / respondents "
+ASSUMPTIONS = ["weights {1,2}", "in a response carrying a numeric mean the respondents counted are those "
+               "with a valid numeric answer (numeric answers {missing, 1})", "unconditional share = members of the row element / respondents "
                "eligible for it (valid on the rows dimension / item), any column answer"]
 TRUSTED = ["numpy"]
 NANF = float("nan")
@@ -58,6 +59,16 @@ def _build():
     reg.add(Schema("catF_x_cat_x_mr", [T, A1, M], [("cat", 0), ("cat", 1), ("mr", 2)]), configs=[{}], quick=2, thorough=2)
     reg.add(Schema("catF_x_mr_x_cat", [T, M, A1], [("cat", 0), ("mr", 1), ("cat", 2)]), configs=[{}], quick=2, thorough=2)
     reg.add(Schema("mr_x_cat_x_cat", [M, A1, B1], [("mr", 0), ("cat", 1), ("cat", 2)]), configs=[{}], quick=2, thorough=3)
+    # responses carrying a numeric mean: every count is a count of respondents with a valid numeric
+    # answer (weighted and unweighted valid counts both present), and so is the unconditional share
+    num = {"measures": ["mean"], "valid_counts": True}
+    Am, Bm = S.cat("a", 2, "mid"), S.cat("b", 2, "mid")
+    reg.add(S.schema2("num_cat_x_cat_w", Am, Bm, weighted=True, numeric=dict(num)), W, (None, 1), configs=[{}],
+            quick=2, thorough=3)
+    reg.add(S.schema2("num_cat_x_mr_w", Am, M, weighted=True, numeric=dict(num)), W, (None, 1), configs=[{}],
+            quick=2, thorough=2)
+    reg.add(S.schema2("num_mr_x_cat_w", M, Am, weighted=True, numeric=dict(num)), W, (None, 1), configs=[{}],
+            quick=2, thorough=2)
     return reg
 
 
@@ -81,6 +92,8 @@ def check(space, state):
     nontrivial = False
     ndim3 = len(sch.dims) == 3
     for pidx, (part, (kind, _lbl, orc)) in enumerate(zip(cube.partitions, oracles)):
+        if sch.numeric:
+            orc.data = [r for r in orc.data if r[2] is not None]
         o = with_subtotals(orc, cfg)
         a = o.all(True)
         ro = display_map(part.row_order(), o.n_base_rows, len(o.row_specs))
